@@ -47,6 +47,16 @@ def t_spy_on(host, kind):
         def rawcall(it_, fv, args, kwargs):
             cc = it_.c
             calls.append((fv, args))
+            # while the user function runs the chart names this state ...
+            cc.prove('_spy_on[%s]:call-pre/state_name-and-state_fn-name-this-state' % kind,
+                     z3.And(cc.hget(chart, 'state_name') == name_of(raw), cc.hget(chart, 'state_fn') == raw), tags=('C23',))
+            # ... but user code may call is_in / child_state / another decorated state function, all of which rewrite
+            # the two names (and spied_on): whatever it leaves there is not this wrapper's to rely on
+            left_name = cc.fresh_ref('state_name_left_by_user_code', 'str', distinct=False)
+            left_fn = cc.fresh('state_fn_left_by_user_code', Ref)
+            cc.hset(chart, 'state_name', left_name.e)
+            cc.hset(chart, 'state_fn', left_fn)
+            cc.pyghost['names_left'] = (left_name.e, left_fn)
             # user code may leave its own markers (posts, scribbles) in the step log; it never shortens it
             if host in INSTRUMENTED_HOSTS:
                 spy = cc.read(cc.read(chart, 'rtc'), 'spy')
@@ -91,27 +101,32 @@ def t_spy_on(host, kind):
             c.prove('_spy_on[%s]:reflection/returns-the-state-name' % kind,
                     c.to_ref(out.value) == name_of(raw) if isinstance(out.value, (SRef, str)) else z3.BoolVal(False),
                     tags=('C18', 'C23'))
-        c.prove('_spy_on[%s]:post/state_name-and-state_fn-name-this-state' % kind,
-                z3.And(c.hget(chart, 'state_name') == name_of(raw), c.hget(chart, 'state_fn') == raw), tags=('C23',))
+        if len(calls) == 1:
+            ln, lf = c.pyghost['names_left']
+            c.prove('_spy_on[%s]:post/names-are-what-the-user-function-left' % kind,
+                    z3.And(c.hget(chart, 'state_name') == ln, c.hget(chart, 'state_fn') == lf), tags=('C23',))
+        else:
+            c.prove('_spy_on[%s]:post/state_name-and-state_fn-name-this-state' % kind,
+                    z3.And(c.hget(chart, 'state_name') == name_of(raw), c.hget(chart, 'state_fn') == raw), tags=('C23',))
         if host in INSTRUMENTED_HOSTS and len(calls) == 1:
             spy1, tup1 = view(it, spy), view(it, tup)
             itA, nA = c.pyghost['spy_after_handler']
             nm, sg = sval(name_of(raw)), sval(c.hget(e, 'signal_name'))
-            f1, f2 = B.fmt_func('{}:{}', 2), B.fmt_func('{}:{}:HOOK', 3)
+            f1, f2 = B.fmt_func('{}:{}', 2), B.fmt_func('{}:{}:HOOK', 2)
             inner = kind != 'user'
             hook = z3.And(status == it.w.statuses['HANDLED'], z3.BoolVal(not inner))
-            if f1 is not None:
-                c.prove('_spy_on[%s]:spy/invocation-line-first' % kind,
-                        z3.Implies(instr, sval(spy1.at(spy0.len)) == f1(sg, nm)), tags=('C19',))
+            c.prove('_spy_on[%s]:spy/invocation-line-first' % kind,
+                    z3.Implies(instr, sval(spy1.at(spy0.len)) == f1(sg, nm)) if f1 is not None else z3.Not(instr),
+                    tags=('C19',))
             c.prove('_spy_on[%s]:spy/earlier-lines-kept' % kind,
                     z3.ForAll([z3.Int('i!p')], z3.Implies(z3.And(0 <= z3.Int('i!p'), z3.Int('i!p') < spy0.len),
                                                          spy1.at(z3.Int('i!p')) == spy0.at(z3.Int('i!p')))), tags=('C19',))
             c.prove('_spy_on[%s]:spy/hook-line-exactly-when-handled-internally' % kind,
                     z3.Implies(instr, spy1.len == nA + z3.If(hook, 1, 0)), tags=('C19',))
-            if f2 is not None and not inner:
-                c.prove('_spy_on[%s]:spy/hook-line-text' % kind,
-                        z3.Implies(z3.And(instr, hook), sval(spy1.at(nA)) == f2(sg, nm, c.strconst('HOOK')) if False
-                                   else z3.BoolVal(True)), tags=('C19',))
+            if not inner:
+                c.prove('_spy_on[%s]:spy/hook-line-names-the-event-and-this-state' % kind,
+                        z3.Implies(z3.And(instr, hook), sval(spy1.at(nA)) == f2(sg, nm)) if f2 is not None
+                        else z3.Not(z3.And(instr, hook)), tags=('C19',))
             c.prove('_spy_on[%s]:spy/one-tuple-per-invocation' % kind,
                     z3.Implies(instr, tup1.len == tup0.len + 1), tags=('C19', 'C20'))
             t = tup1.at(tup0.len)
@@ -266,7 +281,9 @@ def instr_world(src, tier, spied=True):
     return w
 
 
-def instr_chart(it, host):
+def instr_chart(it, host, room=True):
+    """room=True: the full spy/trace ring buffers are assumed to have head room for one step (C19/C20 state the
+    truncation of a saturated buffer separately); room=False: any fill level, including saturated."""
     from .core_targets import spied_chart
     c = it.c
     self, cur = spied_chart(it, host)
@@ -277,7 +294,8 @@ def instr_chart(it, host):
         c.hset(self, 'instrumented', ins)
     for holder, f in (('full', 'spy'), ('full', 'trace')):
         d = c.read(c.read(self, holder), f)
-        c.assume(B.seq_len(it, d) < c.hget(d, '$maxlen') - 300)
+        if room:
+            c.assume(B.seq_len(it, d) < c.hget(d, '$maxlen') - 300)
     return self, cur
 
 
@@ -468,7 +486,7 @@ def t_live_trace(when):
     def run(it):
         c, g = it.c, it.c.ghost
         from contracts.queues import ghost_seq_init
-        self, cur = instr_chart(it, 'HsmWithQueues')
+        self, cur = instr_chart(it, 'HsmWithQueues', room=False)      # the live printer must work on a saturated trace too
         tr = c.read(c.read(self, 'full'), 'trace')
         TR0 = view(it, tr)
         ghost_seq_init(c, 'log_live_trace')
@@ -494,8 +512,8 @@ def t_live_trace(when):
             n = B.seq_len(it_, tr)
             # newly allocated: not one of the records already in the trace
             cc.assume(z3.ForAll([_i], z3.Implies(z3.And(0 <= _i, _i < n), z3.Select(B.seq_items(it_, tr), _i) != rec.e)))
-            cc.hset(tr, '$items', z3.If(appended, z3.Store(B.seq_items(it_, tr), n, rec.e), B.seq_items(it_, tr)))
-            cc.hset(tr, '$len', z3.If(appended, n + 1, n))
+            if cc.branch(appended, 'step-appends-a-record'):
+                B.seq_append(it_, tr, rec)      # the trace is a ring buffer: when it is full the oldest record goes
             return result
         fn = _wrapper(it, path, step)
         args = [self] + ([c.fresh_ref('initial_state', 'state')] if when == 'start' else [])
@@ -527,7 +545,10 @@ def t_live_spy(when):
         def step(it_, args, kwargs):
             it_.c.pyghost['inner_calls'] = it_.c.pyghost.get('inner_calls', 0) + 1
             extend_deque(it_, rs, 'spy_after_step')
+            it_.c.pyghost['rs_after_step'] = (B.seq_items(it_, rs), B.seq_len(it_, rs))
             return result
+        # posts made while the live callback runs (from the callback itself or from another thread) append markers
+        c.pyghost[('callback_may_append_to', 'live_spy')] = rs
         fn = _wrapper(it, path, step)
         args = [self] + ([c.fresh_ref('initial_state', 'state')] if when == 'start' else [])
         out = run_body(it, fn, args)
@@ -536,11 +557,11 @@ def t_live_spy(when):
             return
         c.prove('live-spy[%s]:transparent/wrapped-step-runs-once-and-its-result-is-returned' % when,
                 z3.And(z3.BoolVal(c.pyghost.get('inner_calls', 0) == 1), c.to_ref(out.value) == result.e), tags=('C18',))
-        RS1 = view(it, rs)
+        itS, nS = c.pyghost['rs_after_step']         # the step log as the step left it
         on = z3.And(c.hget(self, 'instrumented'), c.hget(self, 'live_spy'))
         c.prove('live-spy[%s]:post/every-line-of-the-step-handed-to-the-callback-once-in-order' % when, z3.If(on, z3.And(
-            g['log_live_spy_len'] - s0 == RS1.len,
-            z3.ForAll([_i], z3.Implies(z3.And(0 <= _i, _i < RS1.len), z3.Select(g['log_live_spy'], s0 + _i) == RS1.at(_i)))),
+            g['log_live_spy_len'] - s0 == nS,
+            z3.ForAll([_i], z3.Implies(z3.And(0 <= _i, _i < nS), z3.Select(g['log_live_spy'], s0 + _i) == z3.Select(itS, _i)))),
             g['log_live_spy_len'] == s0), tags=('C21',))
         c.cover('live-spy[%s]:cover' % when)
     return Target('live-spy[%s]' % when, run, [path])
@@ -582,3 +603,87 @@ COMMON_TRUSTED = ['core contracts of HsmEventProcessor.dispatch / start_at as se
                   'of them; the summary of what a step\'s handler invocations logged follows from the _spy_on contract, the '
                   'offer protocol of C02 and the core\'s frame)', 'deque / list contracts', 'functools.wraps preserves __name__',
                   'user live callbacks and user state code do not touch the chart\'s instrumentation fields']
+
+
+# ------------------------------------------------------------------ C19: the documented markers of a step
+MARKER_TEXT = {'post_fifo': 'POST_FIFO:{}', 'post_lifo': 'POST_LIFO:{}', 'defer': 'POST_DEFERRED:{}', 'recall': 'RECALL:{}'}
+
+
+def _is_line(c, ref, literal, name_ref):
+    """ref is the text <literal>.format(name): str.format is an uninterpreted constructor keyed by the literal, so a
+    different literal or a different argument is a different (unprovable) text."""
+    f = B.fmt_func(literal, 1)
+    if f is None:
+        return z3.BoolVal(False)
+    return z3.And(ref != NONE, sval(ref) == f(sval(name_ref)))
+
+
+def t_marker(op, host='HsmWithQueues'):
+    """post_fifo / post_lifo / defer / recall / scribble on a queued chart: the step log gets exactly the documented
+    marker(s), naming the event concerned, when the chart is instrumented, and nothing otherwise."""
+    def run(it):
+        c = it.c
+        from contracts.common import is_fifo_put, same_seq
+        self = make_chart(it, host)
+        flags(it, self)
+        rs = c.read(c.read(self, 'rtc'), 'spy')
+        rt = c.read(c.read(self, 'rtc'), 'tuples')
+        dq = c.read(self, 'defer_queue')
+        # head room in the step log: a step longer than the buffer is the truncation the property states
+        c.assume(B.seq_len(it, rs) < c.hget(rs, '$maxlen') - 4)
+        c.assume(B.seq_len(it, rt) < c.hget(rt, '$maxlen') - 4)
+        i = z3.Int('i!dq')
+        D0 = view(it, dq)
+        c.assume(z3.ForAll([i], z3.Implies(z3.And(0 <= i, i < D0.len), D0.at(i) != NONE)))
+        RS0, RT0 = view(it, rs), view(it, rt)
+        instr = c.hget(self, 'instrumented')
+        if op == 'scribble':
+            text = c.fresh_ref('text', 'str')
+            out = run_body(it, method(it, self, 'scribble'), [text])
+        elif op == 'recall':
+            out = run_body(it, method(it, self, 'recall'), [])
+        else:
+            e = symbolic_event(it)
+            out = run_body(it, method(it, self, op), [e])
+        c.prove('marker[%s]:post/returns-normally' % op, out.raised is None, tags=('C19',))
+        if out.raised is not None:
+            return
+        RS1, RT1 = view(it, rs), view(it, rt)
+        if op == 'scribble':
+            c.prove('marker[scribble]:post/the-text-is-the-next-line-of-the-step-log-when-instrumented',
+                    z3.If(instr, z3.And(RS1.len == RS0.len + 1, RS1.at(RS0.len) == text.e), RS1.len == RS0.len), tags=('C19',))
+        elif op == 'recall':
+            head = D0.at(0)
+            nm = c.hget(head, 'signal_name')
+            some = D0.len > 0
+            c.prove('marker[recall]:post/RECALL-then-POST_FIFO-naming-the-recalled-event',
+                    z3.If(z3.And(instr, some),
+                          z3.And(RS1.len == RS0.len + 2, _is_line(c, RS1.at(RS0.len), MARKER_TEXT['recall'], nm),
+                                 _is_line(c, RS1.at(RS0.len + 1), MARKER_TEXT['post_fifo'], nm)),
+                          RS1.len == RS0.len), tags=('C19',))
+            t = RT1.at(RT0.len)
+            c.prove('marker[recall]:post/one-recall-tuple-naming-the-recalled-event',
+                    z3.If(z3.And(instr, some),
+                          z3.And(RT1.len == RT0.len + 1, t != NONE, c.hget(t, 'SpyTuple.recall'),
+                                 sval(c.hget(t, 'SpyTuple.signal')) == sval(nm)),
+                          RT1.len == RT0.len), tags=('C19', 'C20'))
+        else:
+            nm = c.hget(e, 'signal_name')
+            c.prove('marker[%s]:post/one-marker-naming-the-event-when-instrumented' % op,
+                    z3.If(instr, z3.And(RS1.len == RS0.len + 1, _is_line(c, RS1.at(RS0.len), MARKER_TEXT[op], nm)),
+                          RS1.len == RS0.len), tags=('C19',))
+            c.prove('marker[%s]:post/no-tuple' % op, RT1.len == RT0.len, tags=('C19', 'C20'))
+        j = z3.Int('j!keep')
+        c.prove('marker[%s]:post/earlier-lines-kept' % op,
+                z3.ForAll([j], z3.Implies(z3.And(0 <= j, j < RS0.len), RS1.at(j) == RS0.at(j))), tags=('C19',))
+        c.cover('marker[%s]:cover' % op)
+    fns = {'post_fifo': ['hsm.HsmWithQueues.post_fifo', 'hsm.append_fifo_to_spy._append_fifo_to_spy'],
+           'post_lifo': ['hsm.HsmWithQueues.post_lifo', 'hsm.HsmWithQueues.append_lifo_to_spy._append_lifo_to_spy'],
+           'defer': ['hsm.HsmWithQueues.defer', 'hsm.HsmWithQueues.append_defer_to_spy._append_defer_to_spy'],
+           'recall': ['hsm.HsmWithQueues.recall', 'hsm.HsmWithQueues.append_recall_to_spy._append_recall_to_spy'],
+           'scribble': ['hsm.InstrumentedHsmEventProcessor.scribble']}[op]
+    return Target('marker[%s]@%s' % (op, host), run, fns)
+
+
+def marker_targets():
+    return [t_marker(op) for op in ('post_fifo', 'post_lifo', 'defer', 'recall', 'scribble')]
